@@ -1,5 +1,6 @@
 import Driver.Util
 import TrimeshVerif.Model.GeomRat
+import TrimeshVerif.Model.Winding
 open Lean Drv TV.GeomRat
 namespace Drv.Geom
 
@@ -55,7 +56,29 @@ def handleC10 (j : Json) : Except String Json := do
     ("dets", ofList (fun (i : InstanceR) => ofRat (detR i.L)) insts)]
 
 /-- C18: one to four subdivision of a triangle list -/
+def jPair (j : Json) : Except String (Nat × Nat) := do
+  match j with
+  | Json.arr #[a, b] => pure ((← jNat a), (← jNat b))
+  | _ => throw "pair expected"
+
+/-- C18 `fix_winding`: the traversal on (adjacent pairs, same-direction flags, tree edges in search order) -/
+def handleWinding (j : Json) : Except String Json := do
+  let adj ← fld j "adj" (jList jPair)
+  let same ← fld j "same" (jList jBool)
+  let tree ← fld j "tree" (jList jPair)
+  let n ← fld j "n" jNat
+  let w := TV.Winding.sameDirOf (adj.zip same)
+  -- the list-valued traversal (equal to `traverse` by `C18_driver_traversal`)
+  let xl := TV.Winding.traverseL w n tree
+  let x := TV.Winding.look xl
+  pure <| obj [
+    ("flips", ofList ofBool xl),
+    ("tree_order", ofBool (TV.Winding.treeOrder tree [])),
+    ("consistent", ofBool (TV.Winding.allConsistent w x adj))]
+
 def handleC18 (j : Json) : Except String Json := do
+  let op ← fldD j "op" jStr ""
+  if op == "winding" then return (← handleWinding j)
   let ts ← fld j "tris" (jList jTri)
   let sub := subdivideR ts
   let area2 (xs : List Tri) : List V := xs.map areaVecR
